@@ -476,6 +476,55 @@ def ob_linear_equal_knots():
     return Ob("C12.coalescent.linear.equal_knots", "B", body, clause="gradient = derivative of the reported value where neighbouring population sizes are equal", funcs=FUNCS)
 
 
+def ob_degenerate_rates(kind, label, x0):
+    """substitution models at the parameter values where the rate matrix has REPEATED eigenvalues (HKY at kappa = 1, GTR with all
+    exchangeabilities equal - the value the command line initialises them with): the transition probabilities are smooth there, the
+    gradient autograd reports must be the derivative of the reported value (central differences of the real function)"""
+    def body():
+        from torchtree.core.parameter import Parameter
+        from torchtree.evolution.substitution_model.nucleotide import GTR, HKY
+        t64 = lambda v: torch.tensor(v, dtype=torch.float64)
+        freqs = [0.1, 0.2, 0.3, 0.4]
+        bl = t64([[0.1], [0.7]])
+
+        def value(x):
+            f = Parameter("f", t64(freqs))
+            if kind == "HKY":
+                m = HKY("m", Parameter("k", x), f)
+            else:
+                m = GTR("m", Parameter("r", x), f)
+            p = m.p_t(bl)
+            w = t64([[0.3, -0.2, 0.5, 0.1], [0.2, 0.4, -0.1, 0.6], [0.7, 0.1, 0.2, -0.3], [-0.4, 0.5, 0.3, 0.2]])
+            return (p * w).sum()
+        bad, n = [], 0
+        for x0_ in [list(x0)]:
+            x = t64(x0_).requires_grad_(True)
+            value(x).backward()
+            g = x.grad.detach().clone()
+            h = 1e-5
+            for i in range(len(x0_)):
+                e = torch.zeros(len(x0_), dtype=torch.float64)
+                e[i] = h
+                fd = float(value(t64(x0_) + e) - value(t64(x0_) - e)) / (2 * h)
+                n += 1
+                gi = float(g[i])
+                if not (gi == gi) or abs(gi - fd) > 1e-6 * max(1.0, abs(fd)):
+                    bad.append("%s at %s: d/dx[%d] autograd %r, central difference of the reported value %.8f" % (kind, x0_, i, gi, fd))
+        if bad:
+            raise Refuted("%s where the rate matrix has repeated eigenvalues: %s" % (kind, "; ".join(bad[:3])), witness={"problems": bad[:8]},
+                          replay={"kind": "custom", "contract": "C12", "func": "replay_degenerate_rates", "args": {"kind": kind, "label": label, "x0": list(x0)}}, confirmed=True)
+        return {"backend": "real autograd", "cases": n, "statement": "%s at %s: %d partial derivatives agree with central differences" % (kind, label, n)}
+    return Ob("C12.subst.gradient[%s,%s]" % (kind, label), "B", body, clause="gradient = derivative of the reported value where the rate matrix has repeated eigenvalues", funcs=FUNCS)
+
+
+def replay_degenerate_rates(args):
+    try:
+        ob_degenerate_rates(args["kind"], args["label"], args["x0"]).fn()
+    except Refuted as e:
+        return False, e.detail
+    return True, "held"
+
+
 def replay_linear_equal_knots(args):
     try:
         ob_linear_equal_knots().fn()
@@ -499,6 +548,9 @@ def obligations(tier, seed):
     obs.append(ob_underflow_gradient(True))
     obs.append(ob_late_requires_grad())
     obs.append(ob_linear_equal_knots())
+    for kind, label, x0 in (("HKY", "kappa=1", [1.0]), ("HKY", "kappa=2.5", [2.5]), ("GTR", "all rates 1/6", [1.0 / 6] * 6), ("GTR", "all rates 1", [1.0] * 6),
+                            ("GTR", "distinct rates", [0.5, 1.0, 1.5, 0.7, 2.0, 1.0])):
+        obs.append(ob_degenerate_rates(kind, label, x0))
     for observer in ("logger", "tree_logger", "no_grad_evaluation"):
         obs.append(ob_observer_then_backward(observer))
 
